@@ -73,6 +73,29 @@ CHECKS = {
         "axis-independence and linearity. Held on the executions observed.",
         "float64 Chebyshev algebra of numpy as reference; tolerance K eps g(n) sum|c_k|",
         "DESIGN.md §4 C16"),
+    "C05": (
+        "postcondition monitor on findvwLTE (general and template solver): entropy mismatch "
+        "S(v)=T+g+ - T-g- scanned on 26 matchings of the real findMatching, each validated on "
+        "the spot by the flux oracle and the reference flow; tolerance from measured dS/dv, "
+        "dG/dv and the solver tolerances",
+        "Runtime monitoring of ~120 (quick) / ~1900 (thorough) admissible equations of state "
+        "with all three outcomes (interior, runaway sentinel, static sentinel) observed and "
+        "counted; margin exclusions counted. Held on the executions observed except for the "
+        "listed known findings.",
+        "S is evaluated only on matchings that pass C02's flux oracle and C03's reference flow",
+        "DESIGN.md §4 C05"),
+    "C17": (
+        "class-invariant monitor installed on Grid/Grid3Scales __init__ and rescale methods "
+        "(shadow record of call arguments): monotonicity, origin->centre, cache==recomputation, "
+        "Jacobian vs 40-digit mpmath derivative and vs quadrature of the reported Jacobian, "
+        "round trips, centre slope L/r, bit-equality with a fresh construction after every call "
+        "history",
+        "Runtime monitoring of 420 (quick) / 5000 (thorough) grids over four decades of scales, "
+        "both spacings, rescale histories up to 6/20 calls incl. the real EOM._updateGrid body "
+        "and rejected calls. Held on the executions observed.",
+        "per-point forward rounding bounds evaluated in mpmath; endpoints chi=+-1 recorded, not "
+        "judged",
+        "DESIGN.md §4 C17"),
 }
 
 ALL = [f"C{i:02d}" for i in range(1, 21)]
